@@ -8,7 +8,8 @@ IEEE = "for non-negative non-NaN float32 the order of values is the order of the
 PROPS = {
     "C01": dict(
         module="Anndb.Props.C01",
-        engines=[dict(name="hnsw", quick=["exact=150", "wide=150"], thorough=["exact=2500", "wide=3000", "ops=160"])],
+        engines=[dict(name="hnsw", quick=["exact=150", "wide=150"], thorough=["exact=2500", "wide=3000", "ops=160"]),
+                 dict(name="partition", quick=["hist=80"], thorough=["hist=1000", "ops=120"])],
         trusted=["model of index/hnsw.go (Model/Hnsw.lean) tied to the real index by exact whole-graph transcript equality in the order-independent regime (engine hnsw)",
                  "space.Distance is a parameter `dist` of every theorem; the harness tabulates it with the real implementation"],
         assumptions=[GO_RUNTIME, IEEE, "sequential use of the index (concurrency is C13)",
@@ -28,6 +29,13 @@ PROPS = {
         trusted=["same model and tie as C02; the effect of snapshot Save+Load on the graph is Index.reload, whose byte-level counterpart is C08's codec",
                  "three real stand-alone partitions fed byte-identical entries, one restoring a snapshot at every cut (into a fresh or a used replica)"],
         assumptions=[GO_RUNTIME, "graph equality between replicas is not claimed (legitimately non-deterministic); contents, counters and outcomes are"],
+    ),
+    "C16": dict(
+        module="Anndb.Props.C16",
+        engines=[dict(name="placement")],
+        trusted=["rand.Shuffle produces a permutation of its input (modelled as an oracle: any permutation)",
+                 "shape facts Generated.placementCopiesPrefix, Generated.connNodeIdsFresh"],
+        assumptions=[GO_RUNTIME, "independence is a theorem about the model (each partition's nodes are a function of its own shuffle); on the real code it is supported by an aliasing check and two distribution tests with false-alarm probability below 1e-12"],
     ),
     "C19": dict(
         module="Anndb.Props.C19",
